@@ -7,6 +7,7 @@ observation.  No Mathlib imports.
 -/
 import Vibrato.Util.Wire
 import Vibrato.Model.Worker
+import Vibrato.Model.Mapper
 
 namespace Vibrato.Driver.Tok
 open Vibrato Vibrato.Wire
@@ -342,12 +343,211 @@ def evalP (fx : Fixes) (D0 : DictM) (c : Case) : String :=
         s!"C01={b p1} C02={b p2} C04={b p4}"
   | _, _ => "n/a"
 
+/-- id-free projection of a token: what C06/C12 say must not change -/
+def projTok (t : ITok) : String :=
+  s!"{hexOfBytes t.surface}:{t.lexType}:{t.wordId}:{t.wcost}:{t.total}:{hexOfBytes t.feature}"
+
+def projTokPos (t : ITok) : String := s!"{t.start}-{t.stop}:" ++ projTok t
+
+/-- apply only the user-lexicon operations of a DOPS history (no id mapping, no write/read) -/
+def userOnly (D : DictM) : List DOp → Option DictM
+  | [] => some D
+  | .user b :: ops => match D.resetUser Fixes.all (some b) with
+    | .ok D' => userOnly D' ops
+    | _ => none
+  | .userNone :: ops => match D.resetUser Fixes.all none with
+    | .ok D' => userOnly D' ops
+    | _ => none
+  | _ :: ops => userOnly D ops
+
+/-- the dictionary with the user rows appended to the system lexicon (C08) -/
+def extendSys (D : DictM) : DictM :=
+  match D.user with
+  | none => D
+  | some u => { D with sys := { entries := D.sys.entries ++ u.entries, features := D.sys.features ++ u.features },
+                       user := none }
+
+def parseLat (f : List String) : Option (List (List (List Nat))) :=
+  -- `lat <nb> (<count> (<8 fields>)*)* (eos <8 fields> | noeos)`; returns per boundary the
+  -- candidate projection [wordId, lexType, startNode, startWord, left, right]
+  match f with
+  | "lat" :: nb :: rest => do
+    let nb ← natOf nb
+    let rec go : Nat → List String → List (List (List Nat)) → Option (List (List (List Nat)))
+      | 0, _, acc => some acc.reverse
+      | k + 1, cnt :: r, acc => do
+        let cnt ← natOf cnt
+        let nodes ← (List.range cnt).mapM fun j => do
+          let g := (r.drop (8 * j)).take 8
+          let ns ← g.mapM intOf
+          pure ((ns.take 6).map Int.toNat)
+        go k (r.drop (8 * cnt)) (nodes :: acc)
+      | _, _, _ => none
+    go nb rest []
+  | _ => none
+
+def sortStrs (xs : List String) : List String := (xs.toArray.qsort (· < ·)).toList
+
+/-- counts sorted check: ids form a permutation of `1..n-1` ordered by count desc, id asc -/
+def probsOk (counts ids : List Nat) : Bool :=
+  let n := counts.length
+  ids.length + 1 == n && (List.range' 1 (n - 1)).all (ids.contains ·) &&
+  (ids.zip ids.tail).all fun (a, b) =>
+    let ca := counts.getD a 0; let cb := counts.getD b 0
+    ca > cb || (ca == cb && a < b)
+
+/-- Second group of predicates: `C03 C06 C08 C12 C13`. -/
+def evalP2 (D0 : DictM) (c : Case) : String :=
+  let parts := splitParts c.impl
+  let find (i : Nat) : Option (List String) :=
+    (parts.find? fun p => p.head? == some s!"W{i}").map (·.drop 1)
+  let b (x : Bool) := if x then "1" else "0"
+  -- reference dictionaries
+  let DU := userOnly D0 c.dops
+  let TU := DU.bind fun D => mkTokenizer D c.ign c.maxg
+  let TE := DU.bind fun D => mkTokenizer (extendSys D) c.ign c.maxg
+  let TM := (match runDOps Fixes.all D0 c.dops 0 with | .ok D => some D | _ => none).bind
+    fun D => mkTokenizer D c.ign c.maxg
+  let rec go : List WOp → Nat → List Nat → Bool → List Nat × List Nat →
+      (Bool × Bool × Bool × Bool × List (List String)) → (Bool × Bool × Bool × Bool × List (List String))
+    | [], _, _, _, _, acc => acc
+    | op :: ops, i, sent, tokd, cnts, acc =>
+      let (a3, a6, a8, a13, projs) := acc
+      match op with
+      | .reset s => go ops (i + 1) s false cnts acc
+      | .tokenize => go ops (i + 1) sent true cnts acc
+      | .query =>
+        match (find i).bind parseITokens with
+        | some its =>
+          if tokd then
+            -- C06: same tokens (ids aside) as the unmapped dictionary
+            let ok6 := match TU with
+              | none => true
+              | some T =>
+                match tokenize T.dict.tokDict T.opts sent with
+                | none => true
+                | some ts =>
+                  let want := ts.map fun t =>
+                    let feat := (T.dict.feature t.node.lexType t.node.wordId).getD []
+                    let surf := encodeUtf8 ((sent.drop t.startWord).take (t.endWord - t.startWord))
+                    s!"{t.startWord}-{t.endWord}:{hexOfBytes surf}:{t.node.lexType}:{t.node.wordId}:{t.node.wordCost}:{t.node.minCost}:{hexOfBytes feat}"
+                  want == its.map projTokPos
+            -- C08: optimal cost equals that of the extended system dictionary
+            let ok8 := match TE, TM with
+              | some TEx, some TMm =>
+                if sent.isEmpty then true else
+                let LtE := buildLattice (latEnvOf TEx.dict.tokDict (compileSent TEx.dict.tokDict sent) TEx.opts)
+                let LtM := buildLattice (latEnvOf TMm.dict.tokDict (compileSent TMm.dict.tokDict sent) TMm.opts)
+                let implTotal : Int := match its.getLast? with
+                  | none => TMm.dict.cost 0 0
+                  | some t => t.total + TMm.dict.cost t.right 0
+                LtE.eos.minCost == implTotal && LtM.eos.minCost == implTotal
+              | _, _ => true
+            -- C03 (astral clause): an unknown word starting with a character above U+FFFF must
+            -- carry an entry of DEFAULT (category id 0), the category of characters absent from char.def
+            let okA : Bool := match TM with
+              | none => true
+              | some T => its.all fun t =>
+                  !(t.lexType == 2 && decide (sent.getD t.start 0 ≥ 65536)) ||
+                  ((T.dict.unk[t.wordId]?).map (·.cateId) == some 0)
+            go ops (i + 1) sent tokd cnts (a3, a6 && ok6, a8 && ok8, a13, ((if okA then [] else ["!astral"]) ++ its.map projTok) :: projs)
+          else go ops (i + 1) sent tokd cnts acc
+        | none => go ops (i + 1) sent tokd cnts acc
+      | .lattice =>
+        let ok3 := match (find i).bind parseLat, TM with
+          | some lat, some T =>
+            if sent.isEmpty || !tokd then true else
+            let Lt := buildLattice (latEnvOf T.dict.tokDict (compileSent T.dict.tokDict sent) T.opts)
+            (List.range lat.length).all fun e =>
+              let mine := (endsAt Lt.ends e).map fun n =>
+                [n.wordId, n.lexType, n.startNode, n.startWord, n.leftId, n.rightId]
+              sortStrs ((lat.getD e []).map toString) == sortStrs (mine.map toString)
+          | _, _ => true
+        go ops (i + 1) sent tokd cnts (a3 && ok3, a6, a8, a13, projs)
+      | .counts =>
+        match find i with
+        | some ("counts" :: nl :: rest) =>
+          match natOf nl with
+          | some nl =>
+            let l := (rest.take nl).filterMap natOf
+            let r := ((rest.drop (nl + 1))).filterMap natOf
+            go ops (i + 1) sent tokd (l, r) acc
+          | none => go ops (i + 1) sent tokd cnts acc
+        | _ => go ops (i + 1) sent tokd cnts acc
+      | .probs =>
+        match find i with
+        | some ("probs" :: nl :: rest) =>
+          match natOf nl with
+          | some nl =>
+            let l := (rest.take nl).filterMap natOf
+            let r := ((rest.drop (nl + 1))).filterMap natOf
+            let ok := if cnts.1.isEmpty then true else probsOk cnts.1 l && probsOk cnts.2 r
+            go ops (i + 1) sent tokd cnts (a3, a6, a8, a13 && ok, projs)
+          | none => go ops (i + 1) sent tokd cnts acc
+        | _ => go ops (i + 1) sent tokd cnts acc
+      | _ => go ops (i + 1) sent tokd cnts acc
+  let (p3, p6, p8, p13, projs) := go c.wops 0 [] false ([], []) (true, true, true, true, [])
+  let p3a := projs.all fun p => !(p.contains "!astral")
+  let projs := projs.map fun p => p.filter (· != "!astral")
+  let p12 := match projs with
+    | [] => true
+    | x :: xs => xs.all (· == x)
+  s!"C03={b p3} C03A={b p3a} C06={b p6} C08={b p8} C12={b p12} C13={b p13} NQ={projs.length}"
+
+/-! ### Cross-check of the two dictionary-mapping models
+
+`Vibrato.Mapper` (Model/Mapper.lean) is the model the theorems of `Props/C06map.lean` and
+`Props/C13probs.lean` are about; `DictM` (Model/Dict.lean) is the model compared with the
+implementation.  Every `tok` case with dictionary operations runs both and compares them, so
+the `Mapper` model is tied to the code through `DictM`. -/
+
+def toMapperDict (D : DictM) : Mapper.Dict :=
+  let ps (es : List LexEntry) : List Mapper.Param :=
+    es.map fun e => ⟨e.param.leftId, e.param.rightId, e.param.wordCost⟩
+  { sysParams := ps D.sys.entries
+    userParams := D.user.map fun u => ps u.entries
+    conn := .matrix { data := (List.range D.numLeft).flatMap fun l =>
+                        (List.range D.numRight).map fun r => D.cost r l,
+                      numRight := D.numRight, numLeft := D.numLeft }
+    unkParams := D.unk.map fun e => ⟨e.param.leftId, e.param.rightId, e.param.wordCost⟩
+    stored := D.mapper.map fun m => ⟨m.1, m.2⟩ }
+
+/-- `some true` = both models agree on the whole history, `some false` = they differ,
+`none` = not applicable -/
+def mapperAgree (fx : Fixes) (D0 : DictM) (dops : List DOp) : Option Bool :=
+  if dops.isEmpty then none else
+  let rec go : DictM → Mapper.Dict → List DOp → Bool
+    | _, _, [] => true
+    | D, M, op :: ops =>
+      let step : Outcome DictM × Option (Mapper.Outcome Mapper.Dict) := match op with
+        | .map l r => (D.mapIds fx l r, some (M.mapIds fx.f3 l r))
+        | .userNone => (D.resetUser fx none, some (.ok M.clearUser))
+        | .writeRead => (.ok D, some (.ok M))
+        | .user b =>
+          match (parseLexCsv fx b).bind (fun rows => Outcome.ofOption (lexOfRows rows)) with
+          | .ok u => (D.resetUser fx (some b),
+              some (M.loadUserChecked (u.entries.map fun e => ⟨e.param.leftId, e.param.rightId, e.param.wordCost⟩)))
+          | _ => (D.resetUser fx (some b), none)
+      match step with
+      | (.ok D', some (.ok M')) => toMapperDict D' == M' && go D' M' ops
+      | (.err, some .err) => true
+      | (.panic, some .panic) => true
+      | (.err, none) => true
+      | (.panic, none) => true
+      | _ => false
+  some (go D0 (toMapperDict D0) dops)
+
 def handleTokP (fx : Fixes) (dicts : Dicts) (toks : List String) : String :=
   match parseCase toks with
   | none => "badinput"
   | some c =>
     match dicts.lookup c.dname with
     | none => "nodict"
-    | some D => modelObs fx D c.dops c.ign c.maxg c.wops ++ " P " ++ evalP fx D c
+    | some D =>
+      let mm := match mapperAgree fx D c.dops with
+        | none => ""
+        | some true => " MAPPERMODEL=1"
+        | some false => " MAPPERMODEL=0"
+      modelObs fx D c.dops c.ign c.maxg c.wops ++ " P " ++ evalP fx D c ++ " " ++ evalP2 D c ++ mm
 
 end Vibrato.Driver.Tok
